@@ -166,8 +166,19 @@ def run(chk):
                             g2.pop(key, None)
                         else:
                             g2[key] = val
-                    other.append({"fmt": "treeinfo", "text": DCo.render_ini({"general": g2}), "pre_productmd": True,
-                                  "family": g2["family"], "version00": g2["version"], "general": g2})
+                    tab00 = {"general": g2}
+                    paths00 = None
+                    if rng.random() < 0.4:
+                        # image, stage2 and checksum paths of such trees were often absolute: the tree root ends at the FIRST "/os/"
+                        pool00 = ["images/install.img", "/mnt/tree/os/images/install.img", "/mnt/x86_64/os/images/os/install.img",
+                                  "/images/boot.iso", "//srv/images/pxeboot/vmlinuz", "/a/os/b/os/c/os/d", "os/images/boot.iso", "/os/x"]
+                        p1, p2, p3 = rng.choice(pool00), rng.choice(pool00), rng.choice(pool00)
+                        tab00["stage2"] = {"mainimage": p1}
+                        tab00["images-" + g2["arch"]] = {"boot.iso": p2}
+                        tab00["checksums"] = {p3: "sha256:" + "ab" * 32}
+                        paths00 = [p1, p2, p3]
+                    other.append({"fmt": "treeinfo", "text": DCo.render_ini(tab00), "pre_productmd": True,
+                                  "family": g2["family"], "version00": g2["version"], "general": g2, "paths00": paths00})
     # 4. every shipped fixture
     fx = DL.fixtures()
     allc = other + fx
@@ -222,6 +233,24 @@ def run(chk):
             fdis += 1
             chk.violation("pre-productmd tree %r: packages/repository/source_packages/source_repository upgraded to %r, documented "
                           "heuristics give %r" % ({k: c["general"].get(k) for k in ("family", "version", "arch", "variant", "packagedir", "repository")}, got, m),
+                          {"text": c["text"]}, "docs_legacy:paths_00")
+    def root00(p):
+        if p.startswith("/"):
+            return p[p.find("/os/") + 4:] if "/os/" in p else p.lstrip("/")
+        return p
+    for (i, c), m in zip(fl, fm):
+        r = ores[i]
+        if c.get("paths00") and r[0] == "ok":
+            p1, p2, p3 = c["paths00"]
+            got = [r[3]["stage2"]["mainimage"], r[3]["images"].get(c["general"]["arch"], {}).get("boot.iso"), sorted(r[3]["checksums"])]
+            want = [root00(p1), root00(p2), [root00(p3)]]
+            if got != want:
+                fdis += 1
+                chk.violation("pre-productmd tree with stage2/image/checksum paths %r: upgraded to %r, the reference mapping (relative to "
+                              "the tree root, which ends at the first '/os/') gives %r" % (c["paths00"], got, want), {"text": c["text"]}, "docs_legacy:paths_00")
+        elif c.get("paths00"):
+            fdis += 1
+            chk.violation("pre-productmd tree with stage2/image/checksum paths %r could not be upgraded: %r" % (c["paths00"], r[:3]),
                           {"text": c["text"]}, "docs_legacy:paths_00")
     chk.obligation("suite:docs_legacy:release_00", fdis == 0, "" if fdis == 0 else "%d disagreements" % fdis)
     chk.record_suite("docs_legacy:release_00", {"cases": len(fl), "disagreements": fdis, "families": FAMILIES_00, "versions": VERSIONS_00})
